@@ -49,7 +49,9 @@ var c14Spins = []func() *gt.T{
 		return gt.For(gt.Assign("=", gt.Ident("zi"), gt.Int(0)), gt.Bin(">=", gt.Ident("zi"), gt.Int(0)), gt.Assign("=", gt.Ident("zi"), gt.Bin("+", gt.Ident("zi"), gt.Int(1))), gt.Call("p", gt.Ident("zi")))
 	},
 	func() *gt.T { return gt.For(nil, nil, nil, gt.ForIn("ze", gt.List(gt.Int(1), gt.Int(2)))) },
-	func() *gt.T { return gt.For(nil, nil, nil, gt.If(gt.Bool(true), gt.Continue()), gt.Call("p", gt.Str("never"))) },
+	func() *gt.T {
+		return gt.For(nil, nil, nil, gt.If(gt.Bool(true), gt.Continue()), gt.Call("p", gt.Str("never")))
+	},
 	func() *gt.T { return gt.For(nil, nil, nil, gt.For(nil, nil, nil, gt.For(nil, nil, nil))) },
 	func() *gt.T {
 		return gt.For(nil, nil, nil, gt.If(gt.Bool(true), gt.If(gt.Bool(true), gt.ForIn("ze", gt.Str("ab"), gt.If(gt.Bool(false), gt.Break())))))
@@ -60,11 +62,11 @@ var c14Spins = []func() *gt.T{
 }
 
 type c14Case struct {
-	V2     bool
-	Stmts  map[string][]*gt.T
-	Srcs   map[string]string
-	Grace  int64
-	Spin   bool
+	V2    bool
+	Stmts map[string][]*gt.T
+	Srcs  map[string]string
+	Grace int64
+	Spin  bool
 }
 
 func maxStmtNodes(l []*gt.T, depth int, maxNodes, maxDepth *int) {
